@@ -365,6 +365,15 @@ def latlon_global(nlon, nlat):
     return Mesh(xyz, faces, {"family": "latlon_global", "nlon": nlon, "nlat": nlat}, True)
 
 
+def ring_strip(n, half_width_deg=4.0):
+    """n quads around the equator between two parallels (2n nodes, 3n edges, n faces): a mesh whose element counts can be set
+    exactly (sizes next to powers of two, chunk sizes, ...)."""
+    lons = -180.0 + 360.0 * np.arange(n) / n
+    xyz = np.concatenate([ref.lonlat_to_xyz(lons, np.full(n, -half_width_deg)), ref.lonlat_to_xyz(lons, np.full(n, half_width_deg))])
+    faces = [[i, (i + 1) % n, n + (i + 1) % n, n + i] for i in range(n)]
+    return Mesh(xyz, faces, {"family": "ring_strip", "n": n}, False)
+
+
 def cubed_sphere(ne):
     """Equiangular cubed sphere with shared nodes (closed quad mesh)."""
     t = np.tan(np.linspace(-math.pi / 4, math.pi / 4, ne + 1))
@@ -612,6 +621,8 @@ def build(desc):
         m = bipyramid(desc["k"], desc["seed"])
     elif fam == "refined":
         m = refined(desc["n"], desc["seed"], desc["radius"])
+    elif fam == "ring_strip":
+        m = ring_strip(desc["n"])
     else:
         raise ValueError(fam)
     for key, val in desc.get("ops", []):
